@@ -361,11 +361,12 @@ def rule_narrowing(facts, db, rows):
 
 
 
-def rule_tablefn(facts):
+def rule_tablefn(facts, rule="C12-TABLEFN", TF="glaredb_core::functions::table::builtin::", what="the built-in table functions", floor=3):
     """Table functions that compute with SQL integers (generate_series: curr += step) are not registry rows with a kernel closure, so the
-    instantiation walk does not reach them; their bodies are examined directly with the same classification."""
-    r = RuleResult("C12-TABLEFN", "no raw / discarded-checked integer arithmetic on SQL values in the built-in table functions", floor=3)
-    TF = "glaredb_core::functions::table::builtin::"
+    instantiation walk does not reach them; their bodies are examined directly with the same classification. The same holds for the
+    comparison operators' bind code (their function sets are built by a generic constructor the registry extraction does not read), which
+    computes decimal precision/scale for the operand casts."""
+    r = RuleResult(rule, f"no raw / discarded-checked integer arithmetic on SQL values in {what}", floor=floor)
     for rec in facts.fns_matching(lambda i: (i.startswith(TF) or ("<" + TF) in i) and "::tests::" not in i):
         if not any(t.strip() in SQL_INTS for t in rec["locals"]):
             continue
@@ -381,8 +382,8 @@ def rule_tablefn(facts):
             sites.append((c, ln, d))
         r.inst({"fn": rec["id"], "raw_sites": len(sites)}, not sites)
         for c, ln, d in sites:
-            r.violate(rec["id"], c, f"{d if 'checked' in d or 'assert' in d else 'raw integer operator ' + d} on SQL values in a table function: overflow panics in a worker "
-                      "(aborting the process) or wraps instead of ending the series / raising an error", rec["file"], ln)
+            r.violate(rec["id"], c, f"{d if 'checked' in d or 'assert' in d else 'raw integer operator ' + d} on SQL values in {what}: overflow panics "
+                      "(in a worker: aborting the process) or wraps instead of raising an error", rec["file"], ln)
     return r
 
 
@@ -440,7 +441,8 @@ def run(ctx):
     # decimal + - and comparisons bring both operands to the common decimal type; the kernel then adds the raw integers.
     # An operand that keeps a different scale is added as if it had the common scale: a silently wrong sum.
     deccast = rule_elide(facts, rule="C12-DECCAST", only=lambda fid: "::functions::" in fid, floor=6)
-    return [r, rule_errpath(facts, db, int_rows), rule_errstate(facts), rule_decfit(facts), deccast, rule_tablefn(facts), rule_narrowing(facts, db, int_rows)]
+    return [r, rule_errpath(facts, db, int_rows), rule_errstate(facts), rule_decfit(facts), deccast, rule_tablefn(facts), rule_narrowing(facts, db, int_rows),
+            rule_tablefn(facts, "C12-CMPBIND", "glaredb_core::functions::scalar::builtin::comparison::", "the comparison operators' bind and kernels", 1)]
 
 
 CLAIM = {
